@@ -274,7 +274,8 @@ OP_EXPR = {'is': '$a is $b', 'prec': '$a << $b', 'foll': '$a >> $b', 'union': '$
            'chain': '$A | $B | $C', 'cprec': '$a << $b', 'cfoll': '$a >> $b', 'croot': 'root($a)',
            'lzsub': '(python) node.iter_lazy()', 'descsub': '(python) node.iter_descendants()',
            'reget': '(python) get_node_tree(node, fragment=f)', 'ecmp': '$a (is|<<|>>) $b with one empty operand',
-           'eroot': 'root($a) with $a := ()', 'citem': '(python) XPathContext(root, item=node.value).item'}
+           'eroot': 'root($a) with $a := ()', 'citem': '(python) XPathContext(root, item=node.value).item',
+           'px': 'operator with path operands in an inner focus'}
 _tokens: dict = {}
 
 
@@ -285,6 +286,62 @@ def op_token(name):
     return _tokens[name]
 
 
+PX_OPS = {'union': '{} union {}', 'bar': '{} | {}', 'inter': '{} intersect {}', 'except': '{} except {}',
+          'is': '{} is {}', 'prec': '{} << {}', 'foll': '{} >> {}', 'inner': 'innermost(({}, {}))',
+          'outer': 'outermost(({}, {}))', 'root': 'root({})'}
+PX_ABS = ['Dx', 'Dy', 'Da', 'D*', 'T', 'Kx', 'Ky', 'K*']
+PX_REL = ['cx', 'cy', 'ca', 'c*', 'dx', 'dy', 'd*', 'p', 's', 't']
+
+
+def px_path(code: str) -> str:
+    first = code.endswith('1')
+    if first:
+        code = code[:-1]
+    form, name = code[0], code[1:]
+    text = {'D': f'//{name}', 'T': '/*', 'K': f'/*/{name}', 'c': name, 'd': f'.//{name}', 'p': '..', 's': '.',
+            't': '@*'}[form]
+    return f'({text})[1]' if first else text
+
+
+def px_expr(op: str, nodes) -> str:
+    _, form, focus, opn, c1, c2 = op.split(':')
+    body = PX_OPS[opn].format(px_path(c1), px_path(c2))
+    if form == 'i':
+        return f'({body})' if opn not in ('inner', 'outer', 'root') else body
+    if form == 's':
+        return f'$f/({body})'
+    if form == 'r':
+        k = sum(1 for n in nodes[:int(focus) + 1] if n.node_kind == 'element')
+        return f'(//*)[{k}]/({body})'
+    return f'$f[{body}]'
+
+
+_px_tokens: dict = {}
+
+
+def run_px(root, nodes, op: str) -> str:
+    from elementpath import XPathContext
+    from elementpath.xpath30 import XPath30Parser
+    _, form, focus, opn, c1, c2 = op.split(':')
+    expr = px_expr(op, nodes)
+    idx = {id(n): k for k, n in enumerate(nodes)}
+    try:
+        tok = _px_tokens.get(expr)
+        if tok is None:
+            tok = _px_tokens[expr] = XPath30Parser().parse(expr)
+        fnode = nodes[int(focus)]
+        if form == 'i':
+            ctx = XPathContext(root=root, item=fnode)
+        else:
+            ctx = XPathContext(root=root, variables={'f': fnode})
+        res = list(tok.select(ctx))
+        if form != 'q' and opn in ('is', 'prec', 'foll'):
+            return '-' if not res else ('T' if res[0] is True else 'F' if res[0] is False else f'?{res[0]!r}')
+        return '.'.join(str(idx.get(id(x), '?')) for x in res) or '_'
+    except Exception as e:
+        return err_str(e)
+
+
 def run_op(root, nodes, op: str) -> str:
     from elementpath import XPathContext
     parts = op.split(':')
@@ -293,6 +350,8 @@ def run_op(root, nodes, op: str) -> str:
 
     def lst(s):
         return [] if s == '_' else [nodes[int(k)] for k in s.split('.')]
+    if name == 'px':
+        return run_px(root, nodes, op)
     try:
         if name == 'ecmp':
             k = nodes[int(parts[3])]
@@ -432,6 +491,23 @@ def gen_ops(rng, n: int, count: int, kinds: str = '') -> list[str]:
             xs = some()
             ys = [rng.choice(xs) if xs and rng.random() < 0.4 else pick() for _ in range(rng.randint(0, 5))]
             ops.append(f'{name}:{s(xs)}:{s(ys)}')
+    if count and kinds[:1] == 'D' and elements:
+        # operators whose operands are PATHS, evaluated in an inner (non-root) focus: all four
+        # absolute/relative x left/right combinations
+        for _ in range(2 if count < 6 else 3):
+            opn = rng.choice(['union', 'bar', 'inter', 'except', 'inter', 'except', 'is', 'prec', 'foll',
+                              'inner', 'outer', 'root'])
+            single = opn in ('is', 'prec', 'foll', 'root')
+
+            def code(absolute):
+                c_ = rng.choice(PX_ABS if absolute else PX_REL)
+                if single and c_ not in ('p', 's'):
+                    c_ += '1'
+                elif not single and rng.random() < 0.15 and c_ not in ('p', 's'):
+                    c_ += '1'
+                return c_
+            c1, c2 = code(rng.random() < 0.5), code(rng.random() < 0.5)
+            ops.append(f"px:{rng.choice('isrq')}:{rng.choice(elements)}:{opn}:{c1}:{c2}")
     if count and rng.random() < 0.5:
         # one re-entry of get_node_tree with a built node, last (fragment=False may re-root the tree)
         ops.append(f"reget:{rng.choice('NTF')}:{rng.choice(containers)}")
@@ -713,10 +789,14 @@ def compare(run: Run, cases: list[dict], nops: int = 6, stats: bool = True) -> N
                 st.count('op:' + name)
                 if impl.startswith('ERR'):
                     st.count('op-impl:' + impl)
+                if name == 'px':
+                    pp = op.split(':')
+                    st.count(f'px:{pp[3]}/{"abs" if pp[4][0].isupper() else "rel"}-{"abs" if pp[5][0].isupper() else "rel"}'
+                             f'/form-{pp[1]}')
                 if name in ('croot', 'cprec', 'cfoll'):
                     st.count(f'ctx-root:{"none" if op.split(":")[1] == "-" else ("tree-root" if op.split(":")[1] == "0" else "inner")}'
                              f'{"/operand-outside" if region else ""}')
-            ocase = dict(case, op=op, expr=OP_EXPR[name])
+            ocase = dict(case, op=op, expr=px_expr(op, nodes) if name == 'px' else OP_EXPR[name])
             if s == '-' and name == 'reget':
                 if impl != m:
                     run.disagree(Disagreement(ocase, impl, m, what='reget',
